@@ -36,7 +36,7 @@ const GenesisHeader = "From Kava Require Import Base.Prelude Base.Dec Model.Savi
 var GenesisWanted = []string{
 	"savings/reimport:ok", "savings/reimport:with-deposits", "savings/reimport:multi-denom-deposit", "savings/reimport:several-depositors",
 	"savings/reimport:earn-module-account-is-a-depositor", "savings/reimport:empty-store",
-	"savings/mutgen:valid=true", "savings/mutgen:valid=false", "savings/mutgen:init:ok",
+	"savings/mutgen:valid=true", "savings/mutgen:valid=false", "savings/mutgen:init:ok", "savings/mutgen:invalid:init:panic",
 }
 
 type GenesisHist struct {
@@ -183,13 +183,13 @@ func (w *world) reimport(mark func(string)) savReimport {
 
 const nSavMutations = 9
 
-func (w *world) mutatedGenesis(kind, sel int, mark func(string)) (term string, valid bool, cls Class) {
+func (w *world) mutatedGenesis(kind, sel int, mark func(string)) (term string, valid bool, cls Class, name string) {
 	bctx, _ := w.ctx.CacheContext()
 	gs := savings.ExportGenesis(bctx, w.sk)
 	gs.Deposits = append(savingstypes.Deposits(nil), gs.Deposits...)
 	gs.Params.SupportedDenoms = append([]string(nil), gs.Params.SupportedDenoms...)
 	nd := len(gs.Deposits)
-	name := "none"
+	name = "none"
 	switch kind {
 	case 0:
 		if nd > 0 {
@@ -261,15 +261,19 @@ func (w *world) mutatedGenesis(kind, sel int, mark func(string)) (term string, v
 	valid = gs.Validate() == nil
 	mark("savings/mutgen:" + name + fmt.Sprintf(":valid=%v", valid))
 	mark(fmt.Sprintf("savings/mutgen:valid=%v", valid))
+	// the real InitGenesis runs on EVERY perturbed genesis, also those Validate refuses (scratch branch,
+	// never written back, panics recovered): InitGenesis is the only gate at chain start
+	cls, _ = Atomically(w.ctx, func(ctx sdk.Context) error {
+		c2, _ := ctx.CacheContext() // never written back
+		WipeStore(c2, w.tApp.GetKVStoreKey(savingstypes.StoreKey))
+		wipeSavParams(c2, w)
+		savings.InitGenesis(c2, w.sk, w.tApp.GetAccountKeeper(), gs)
+		return nil
+	})
 	if valid {
-		cls, _ = Atomically(w.ctx, func(ctx sdk.Context) error {
-			c2, _ := ctx.CacheContext() // never written back
-			WipeStore(c2, w.tApp.GetKVStoreKey(savingstypes.StoreKey))
-			wipeSavParams(c2, w)
-			savings.InitGenesis(c2, w.sk, w.tApp.GetAccountKeeper(), gs)
-			return nil
-		})
 		mark("savings/mutgen:init:" + cls.String())
+	} else {
+		mark("savings/mutgen:invalid:init:" + cls.String())
 	}
 	return
 }
@@ -318,12 +322,16 @@ func GenesisRun(seed uint64, idx, n int, ops []op, explicit bool, cnt *Counters)
 		}
 		done = append(done, o)
 		if o.Kind == "mutgen" {
-			term, valid, cls := w.mutatedGenesis(o.D, o.Strat, mark)
-			v, c := int64(0), int64(-1)
+			term, valid, cls, name := w.mutatedGenesis(o.D, o.Strat, mark)
+			v, c := int64(0), int64(cls)
 			if valid {
-				v, c = 1, int64(cls)
+				v = 1
 			}
 			steps = append(steps, fmt.Sprintf("(GProbe %s,\n    ObsProbe [%d; %s])", term, v, Zi(c)))
+			if !valid && cls != ClassPanic && out.Fail == nil {
+				out.Fail = &Failure{Step: i, Predicate: "invalid-genesis-imported:savings:" + name, Signature: "invalid-genesis-imported:savings:" + name,
+					Detail: fmt.Sprintf("GenesisState.Validate refuses this genesis state (perturbation %s of a real export) but InitGenesis on an emptied store imports it: %s", name, term)}
+			}
 			continue
 		}
 		if o.Kind == "reimport" {
